@@ -347,7 +347,8 @@ package cli
 //@       trace[callEnd("Parse", p0)] == evMark("doInit", firstSubFrom(c, args[k], 0, old(fieldHeap(c.commands)), old(fieldHeap(c.aliases))))
 //@   ensures no-illegal-input-tail: h < 0 && callOK("Parse", p0) && k < len(args) ==> !isMark(trace[len(trace)-1], "onError") || len(trace) > callEnd("Parse", p0) + 1
 //@   ensures no-action-no-run: h < 0 && callOK("Parse", p0) && k == len(args) && old(c.Action) == nil ==> result == nil && noRun(old(trace), trace)
-//@   loop 1 invariant scan: true
+//@   panics never-the-impossible-case: ownPanic() ==> !isType(panicval, "string")
+//@   loop 1 invariant scan: forall i int :: 0 <= i && i < $k ==> !aliasOf(c.commands[i], args0[k], fieldHeap(c.aliases))
 //@   loop 2 invariant tried: forall i int :: 0 <= i && i < $k ==> !aliasOf(c.commands[i], arg, fieldHeap(c.aliases))
 //@   loop 2 invariant first: firstSubFrom(c, arg, $k, fieldHeap(c.commands), fieldHeap(c.aliases)) ==
 //@       firstSubFrom(c, arg, 0, old(fieldHeap(c.commands)), old(fieldHeap(c.aliases))) && arg == args0[k]
